@@ -456,7 +456,8 @@ def rule_G6(ctx: Ctx) -> None:
 
 def rule_G7(ctx: Ctx) -> None:
     "config-driven application = application by hand: every saved filter applied, in order, none skipped (C04.E5 re-judged)"
-    from sa.rules.c04 import rule_E5
+    from sa.rules.c04 import rule_E5, rule_E6
+    rule_E6(ctx)
     rule_E5(ctx)
 
 
